@@ -60,7 +60,7 @@ PROPS = {
     'C17': P('terms frozen: setters gated by stage / deposit, non-zero', eps=('setPrice', 'setTpt', 'setNftCost', 'setSchedule1', 'setSchedule2', 'setConfStart', 'setWsStart', 'setClaimStart'),
              cats=('status',), views=('price', 'tpt', 'nftCost', 'schedule'), coq=('Proofs/Stage.v', 'Proofs/Terms.v')),
     'C18': P('allocation: fresh consecutive ranges, no duplicates, v2 limits', eps=('addTickets',), cats=('status', 'events'),
-             views=('range', 'totalFor', 'totalTickets', 'utStatus'), coq=('Proofs/Alloc.v',),
+             views=('range', 'totalFor', 'totalTickets', 'utStatus'), coq=('Proofs/Alloc.v', 'Proofs/SetupAll.v'),
              gentable=('const_max_allowance', 'const_max_entries', 'const_first_ticket_id')),
     'C19': P('pause blocks the gated endpoints and is transparent otherwise',
              eps=('confirm', 'filter', 'select', 'extra', 'claim', 'pause', 'unpause'), cats=('status', 'ret'), views=('paused',),
